@@ -983,6 +983,8 @@ rrul_fill_yly(echs_instant_t *restrict tgt, size_t nti, rrulsp_t rr)
 	size_t res = 0UL;
 	size_t tries;
 	uint8_t wd_mask = 0U;
+	/* the weekday to go with BYWEEKNO when there's no BYDAY */
+	bitint447_t pdow = {0U};
 	bool ymdp;
 	struct enum_s e;
 
@@ -1038,6 +1040,13 @@ rrul_fill_yly(echs_instant_t *restrict tgt, size_t nti, rrulsp_t rr)
 		}
 	}
 
+	if (!wd_mask && bi63_has_bits_p(rr->wk) &&
+	    !nm && !nd && !bi383_has_bits_p(&rr->doy) &&
+	    proto.m && proto.m <= 12U) {
+		/* BYWEEKNO on its own, the weekday is DTSTART's then */
+		ass_bi447(&pdow, ymd_get_wday(proto.y, proto.m, proto.d));
+	}
+
 	y -= echs_shift_dvalue(rr->shift) > 0 ||
 		echs_shift_bday_p(rr->shift) && !echs_shift_neg_p(rr->shift);
 
@@ -1059,6 +1068,10 @@ rrul_fill_yly(echs_instant_t *restrict tgt, size_t nti, rrulsp_t rr)
 			   srcsca == SCALE_GREGORIAN) {
 			/* ywd */
 			fill_yly_ywd(cand, y, rr->wk, &rr->dow);
+		} else if (bi447_has_bits_p(&pdow) &&
+			   srcsca == SCALE_GREGORIAN) {
+			/* ywd with DTSTART's weekday */
+			fill_yly_ywd(cand, y, rr->wk, &pdow);
 		} else if (wd_mask && nm) {
 			/* ymcw or special expand for monthly,
 			 * see note 2 on page 44, RFC 5545 */
